@@ -284,14 +284,23 @@ func prepareQuery(pc, goal *Term, hints []*Term) (newGoal *Term, newPC *Term, ex
 			}
 		}
 	}
-	budget := 600
+	// instance budget: bounded in total, and per hypothesis so that a few large nested quantifiers
+	// (index invariants over maps of maps) cannot starve the hypotheses that come after them
+	budget := 1500
+	const perHyp = 200
 	var parts []*Term
 	ng := Not(g)
 	for round := 0; round < 2 && len(consts) > 0; round++ {
 		var insts []*Term
 		for _, c := range conjuncts(pc) {
-			if hasQuant(c) {
-				i := instantiate(c, true, consts, &budget)
+			if hasQuant(c) && budget > 0 {
+				b := perHyp
+				if budget < b {
+					b = budget
+				}
+				b0 := b
+				i := instantiate(c, true, consts, &b)
+				budget -= b0 - b
 				if i != c {
 					insts = append(insts, i)
 				}
